@@ -11,6 +11,12 @@ verus! {
 // ---------------------------------------------------------------------------------------------
 #[derive(Clone, Copy, PartialEq, Eq, Hash)]
 pub struct DiagnosticCode { pub id: u32 }
+#[allow(non_upper_case_globals)]
+impl DiagnosticCode {
+    // the two variants the syntax-error checker names (any two distinct codes)
+    pub const SyntaxError: DiagnosticCode = DiagnosticCode { id: 0 };
+    pub const DocSyntaxError: DiagnosticCode = DiagnosticCode { id: 1 };
+}
 
 #[derive(Clone, Copy, PartialEq, Eq, Hash)]
 pub struct FileId { pub id: u32 }
@@ -181,6 +187,23 @@ pub open spec fn ctx_enabled(ctx: &DiagnosticContext, code: DiagnosticCode, r: b
         sp_default_enable(code, ctx.config.level))
 }
 
+/// the (unique) verdict the C20 precedence chain determines for a code
+pub open spec fn must_report(ctx: &DiagnosticContext, code: DiagnosticCode) -> bool {
+    forall|r: bool| ctx_enabled(ctx, code, r) ==> r
+}
+
+/// C21: diagnostic `d` is the report of a parse error (its code name, message and translated range)
+pub open spec fn reports(ctx_db: &DbIndex, f: FileId, d: Diagnostic, code: DiagnosticCode, range: TextRange, message: String) -> bool {
+    &&& (d.code matches Some(NumberOrString::String(s)) && s@ == sp_code_name(code))
+    &&& d.message == message
+    &&& d.severity is Some
+    &&& d.range == (match sp_translate(ctx_db, f, range) { Some(r) => r, None => zero_range() })
+}
+
+pub open spec fn parse_error_code(k: LuaParseErrorKind) -> DiagnosticCode {
+    match k { LuaParseErrorKind::SyntaxError => DiagnosticCode::SyntaxError, LuaParseErrorKind::DocError => DiagnosticCode::DocSyntaxError }
+}
+
 pub open spec fn zero_range() -> lsp_types::Range {
     lsp_types::Range { start: lsp_types::Position { line: 0, character: 0 }, end: lsp_types::Position { line: 0, character: 0 } }
 }
@@ -217,6 +240,10 @@ impl<'a> DiagnosticContext<'a> {
     pub fn get_tags(&self, code: DiagnosticCode) -> (r: Option<Vec<DiagnosticTag>>)
         ensures r == sp_tags(code) { unimplemented!() }
 }
+
+//@@ LuaParseErrorKind
+//@@ LuaParseError
+//@@ SyntaxErrorChecker::check::parse_errors
 
 //@@ LuaDiagnostic
 
